@@ -417,7 +417,88 @@ def wl_unknown(ctx, rng, i):
                           dict(case, entry_point=rname))
 
 
+def flag_vs_strict(ctx, ver, t, obj, site, route, case):
+    """the flag of an object however it was made <=> a strict parse of its serialisation is refused"""
+    import stix2
+    flag = flag_of(obj)
+    try:
+        with warnings.catch_warnings():
+            warnings.simplefilter("ignore")
+            text = obj.serialize()
+    except Exception as e:
+        ctx.skip("serialize refused (%s)" % type(e).__name__)
+        return
+    st2, r2 = run(lambda: stix2.parse(text, allow_custom=False))
+    ctx.ev()
+    ctx.count("flag_true" if flag else "flag_false")
+    ctx.see("sites", site)
+    ctx.nontrivial(ver, t, site, "b:" + route)
+    if flag and st2 == "returned":
+        ctx.violation("flagged-custom-but-strict-accepts:" + site, "%s %s (%s, via %s): has_custom is True but a strict parse of the serialisation succeeds" % (ver, t, site, route),
+                      dict(case, route=route, has_custom=flag, text=text[:2500]))
+    elif not flag and st2 == "refused":
+        ctx.violation("custom-content-not-flagged:" + site, "%s %s (%s, via %s): has_custom is False but a strict parse of the serialisation is refused: %s" % (
+            ver, t, site, route, str(r2)[:160]), dict(case, route=route, has_custom=flag, text=text[:2500], strict_error=repr(r2)[:400]))
+
+
+def wl_toplevel(ctx, rng, i):
+    """Toplevel-property extensions (registered, unregistered, several at once), with or without a really custom property beside them, built
+    through every route an object comes into being by: parse, constructor (entries as dictionaries or as instances of the registered class,
+    the extension's properties as keywords or through custom_properties), deepcopy, new_version, marking."""
+    import stix2
+    g = ObjGen(rng, "2.1", hostile=False, ts_max_digits=6)
+    which = ["a", "b", "ab", "ba", "u", "au", "ua"][i % 7]
+    o = gcustom.toplevel21(g, which)
+    o.pop("revoked", None)           # (a revoked object has no new versions, whatever it carries)
+    really_custom = (i // 7) % 3 == 0
+    if really_custom:
+        o["x_really_custom"] = 1
+    site = "toplevel-extension:" + ("registered" if "u" not in which else "unregistered") + ("+custom-property" if really_custom else "")
+    case = {"version": "2.1", "site": site, "input": o}
+    reg = gcustom.ensure_registered()
+    cls = cls_for("2.1", o["type"])
+    tl_names = [n for n in ("rank", "seen_at", "aliases", "grade", "graded_by", "zone", "area") if n in o]
+
+    def as_instances():
+        kw = copy.deepcopy(o)
+        for key, name in ((gcustom.TOPLEVEL_A, "toplevel-a"), (gcustom.TOPLEVEL_B, "toplevel-b")):
+            if key in kw["extensions"]:
+                kw["extensions"][key] = reg[("2.1", name)]()
+        return cls(allow_custom=True, **kw)
+
+    def through_custom_properties():
+        kw = copy.deepcopy(o)
+        cp = {n: kw.pop(n) for n in tl_names[:max(1, len(tl_names) // 2)]}
+        return cls(allow_custom=True, custom_properties=cp, **kw)
+
+    made = []
+    for route, fn in (("parse", lambda: stix2.parse(json.dumps(o), allow_custom=True)), ("constructor", lambda: cls(allow_custom=True, **copy.deepcopy(o))),
+                      ("constructor/instances", as_instances), ("constructor/custom_properties", through_custom_properties if tl_names else None)):
+        if fn is None:
+            continue
+        st, obj = run(fn)
+        if st == "refused":
+            ctx.skip("refused even with allow_custom=True (%s)" % type(obj).__name__)
+            continue
+        made.append((route, obj))
+        flag_vs_strict(ctx, "2.1", o["type"], obj, site, route, case)
+    for route, obj in made[:2]:
+        for droute, fn in (("deepcopy", lambda: copy.deepcopy(obj)), ("new_version", lambda: obj.new_version(name="renamed")),
+                           ("add_markings", lambda: obj.add_markings("marking-definition--613f2e26-407d-48c7-9eca-b8e91df99dc9")),
+                           ("new_version/strict", lambda: stix2.new_version(obj, allow_custom=False, name="renamed") if not really_custom else None)):
+            st, obj2 = run(fn)
+            if st == "refused" or obj2 is None:
+                if st == "refused" and not really_custom and "u" not in which:
+                    ctx.ev()
+                    ctx.violation("legal-object-refused-as-custom:" + droute, "%s of a 2.1 %s whose only extras belong to registered toplevel-property extensions was refused: %s" % (
+                        droute, o["type"], str(obj2)[:160]), dict(case, route=route + "+" + droute, error=repr(obj2)[:300]))
+                continue
+            flag_vs_strict(ctx, "2.1", o["type"], obj2, site, route + "+" + droute, case)
+    ctx.count("toplevel_cases")
+
+
 WORKLOADS = [
+    Workload("toplevel-extensions", wl_toplevel, quick=84, thorough=4200),
     Workload("unknown-type", wl_unknown, quick=80, thorough=2000),
     Workload("inject", wl_inject, quick=lambda: len(BASES) * 2, thorough=lambda: len(BASES) * 200),
     Workload("registered", wl_registered, quick=60, thorough=6000),
